@@ -10,7 +10,7 @@
          recursion over the list; Pool_step_dials), a closed Client never dials again and holds no connection
          (Pool_closed_stays_closed), Client.Close closes every connection it held (Pool_client_close).
    Only statements; proofs are lemmas of Proofs/PoolThms.v.  Tie to the code: the `pool` correspondence suite. *)
-From H2V Require Import Impl.ClientPool Proofs.PoolThms Proofs.PoolLeak Proofs.PoolMono.
+From H2V Require Import Impl.ClientPool Proofs.PoolThms Proofs.PoolLeak Proofs.PoolMono Proofs.PoolOnce.
 From Coq Require Import NArith List Bool.
 Import ListNotations.
 Local Open Scope N_scope.
@@ -94,6 +94,28 @@ Print Assumptions Pool_closed_conn_never_picked.
 
 Example Pool_ex_shut : shut (pl_run (ex_evs ++ [PEvClientClose])) 1 = true /\ shut (pl_run ex_evs) 7 = false.
 Proof. exact ex_shut. Qed.
+
+(* the onDisconnect callback of a connection runs at most once: no connection is between the halves of its Close twice,
+   the callback that runs leaves the connection closed with no callback pending, and from such a state on every further
+   callback for it is a no-op - no removal from the list, no replacement dial (C12: one replacement per dropped
+   connection, so a peer that drops connections cannot make the client dial without bound per drop) *)
+Theorem Pool_closing_nodup : forall evs, NoDup (pl_closing (pl_run evs)).
+Proof. exact closing_nodup. Qed.
+Print Assumptions Pool_closing_nodup.
+
+Theorem Pool_callback_finishes : forall evs x d q o,
+  In x (pl_closing (pl_run evs)) -> pl_close_end (pl_run evs) x d = (q, o) -> done_with q x.
+Proof. exact callback_finishes. Qed.
+Print Assumptions Pool_callback_finishes.
+
+Theorem Pool_callback_once : forall evs1 evs2 x d, done_with (pl_run evs1) x ->
+  pl_close_end (pl_run_from (pl_run evs1) evs2) x d = (pl_run_from (pl_run evs1) evs2, []).
+Proof. exact callback_once. Qed.
+Print Assumptions Pool_callback_once.
+
+Example Pool_ex_done : done_with (pl_run ex_evs) 1 /\
+  In 1 (pl_closing (pl_run [PEvPick PDialOk; PEvSetCan 0 false; PEvPick PDialOk; PEvCloseBegin 1])).
+Proof. exact ex_done. Qed.
 
 Example Pool_ex_no_leak : let p := pl_run (ex_evs ++ [PEvClientClose; PEvPick PDialOk]) in
   pl_closed p = true /\ map plc_id (pl_stat p) = [1; 0] /\ map plc_closed (pl_stat p) = [true; true].
